@@ -96,6 +96,8 @@ type opSpec struct {
 	Gated   bool   `json:"gated,omitempty"`
 	PauseUs int    `json:"pause_us,omitempty"`
 	When    string `json:"when,omitempty"` // special scheduled instant (see instant); "" = now + OffUs
+	Via     string `json:"via,omitempty"`  // "after": the element is scheduled through ExecuteAfter(delay) instead of ExecuteAt(instant) (Executor, TaskExecutor)
+	DelayNs int64  `json:"delay_ns,omitempty"`
 }
 
 type spec struct {
@@ -114,27 +116,31 @@ type spec struct {
 	NItems       int        `json:"n_items,omitempty"`
 	ShutdownMode int        `json:"shutdown_mode,omitempty"` // 0: after clients, gates opened first; 1: after clients, gates opened after the Shutdown call; 2: concurrent with clients
 	ShutdownAt   int        `json:"shutdown_at,omitempty"`   // mode 2: after this many operations of client 0
+	A            string     `json:"a,omitempty"`             // scripted resched-entrypoints: entry point and time class of the first call ("after:0", "at:zero", ...)
+	B            string     `json:"b,omitempty"`             // ... and of the rescheduling call
 	Index        int        `json:"index"`
 }
 
 func (s spec) key() string {
-	return fmt.Sprintf("%s|%s|w%d|m%d|f%d|far%v|p%v|b%v|r%d|c%d|sm%d", s.Script, s.Kind, s.Workers, s.MaxSize, s.Flags, s.Far, s.Probe, s.Blocker, s.Rel*10+s.Perm, len(s.Clients), s.ShutdownMode)
+	return fmt.Sprintf("%s|%s>%s|%s|w%d|m%d|f%d|far%v|p%v|b%v|r%d|c%d|sm%d", s.Script, s.A, s.B, s.Kind, s.Workers, s.MaxSize, s.Flags, s.Far, s.Probe, s.Blocker, s.Rel*10+s.Perm, len(s.Clients), s.ShutdownMode)
 }
 
 // ---------------------------------------------------------------- recorded history
 
 type item struct {
-	idx    int
-	id     int // TaskExecutor identifier (0 for the other kinds)
-	offUs  int64
-	gated  bool
-	gate   chan struct{}
-	once   sync.Once
-	sched  time.Time // scheduled instant (monotonic reading inside)
-	abs    time.Time // scripted scenarios: absolute scheduled instant (overrides now+offUs) to produce equal/earlier/later keys
-	hasAbs bool
-	when   string // special instant class (far future / far past / representation of an ordinary instant)
-	far    int    // +1: scheduled more than an hour after the Add (not due within any run), -1: more than an hour before, 0: ordinary
+	idx     int
+	id      int // TaskExecutor identifier (0 for the other kinds)
+	offUs   int64
+	gated   bool
+	gate    chan struct{}
+	once    sync.Once
+	sched   time.Time // scheduled instant (monotonic reading inside)
+	abs     time.Time // scripted scenarios: absolute scheduled instant (overrides now+offUs) to produce equal/earlier/later keys
+	hasAbs  bool
+	via     string // "after": scheduled through ExecuteAfter(delay); the scheduled instant is then only known as a lower bound
+	delayNs int64
+	when    string // special instant class (far future / far past / representation of an ordinary instant)
+	far     int    // +1: scheduled more than an hour after the Add (not due within any run), -1: more than an hour before, 0: ordinary
 
 	schedCall, schedRet atomic.Uint64
 	accepted            atomic.Bool
@@ -400,7 +406,13 @@ var reprWhens = []string{"utc", "zone", "nomono"}
 // schedule performs Add / ExecuteAt for the element.
 func (r *run) schedule(it *item) {
 	now := time.Now()
-	if it.hasAbs || !it.abs.IsZero() {
+	after := it.via == "after" && r.sp.Kind != kQueue
+	delay := time.Duration(it.delayNs)
+	if after {
+		// ExecuteAfter computes time.Now().Add(delay) itself, later than this reading: now+delay is a lower bound of the
+		// scheduled instant, so "delivered before now+delay" still proves an early delivery (and nothing else is claimed).
+		it.sched = now.Add(delay)
+	} else if it.hasAbs || !it.abs.IsZero() {
 		it.sched = it.abs
 	} else {
 		it.sched = instant(it.when, now, it.offUs)
@@ -425,12 +437,24 @@ func (r *run) schedule(it *item) {
 				it.accepted.Store(true)
 			}
 		case kExec:
-			if el := r.ex.ExecuteAt(func() { r.deliver(it, 0) }, it.sched); el != nil {
+			var el *timed.ScheduledTask
+			if after {
+				el = r.ex.ExecuteAfter(func() { r.deliver(it, 0) }, delay)
+			} else {
+				el = r.ex.ExecuteAt(func() { r.deliver(it, 0) }, it.sched)
+			}
+			if el != nil {
 				it.cancelFn.Store(el.Cancel)
 				it.accepted.Store(true)
 			}
 		case kTask:
-			if el := r.te.ExecuteAt(it.id, func() { r.deliver(it, 0) }, it.sched); el != nil {
+			var el *timed.ScheduledTask
+			if after {
+				el = r.te.ExecuteAfter(it.id, func() { r.deliver(it, 0) }, delay)
+			} else {
+				el = r.te.ExecuteAt(it.id, func() { r.deliver(it, 0) }, it.sched)
+			}
+			if el != nil {
 				it.cancelFn.Store(el.Cancel)
 				it.accepted.Store(true)
 			}
@@ -1154,6 +1178,12 @@ func (r *run) evaluate() {
 		if it.far > 0 {
 			r.cnt["far_future_elements_scheduled"]++
 		}
+		if it.via == "after" && kind != kQueue {
+			r.cnt["execute_after_calls"]++
+			if it.delayNs <= 0 {
+				r.cnt["execute_after_calls_with_nonpositive_delay"]++
+			}
+		}
 	}
 	overl := func(it *item) bool {
 		return shCall != 0 && it.schedRet.Load() > shCall && (shRet == 0 || it.schedCall.Load() < shRet)
@@ -1301,6 +1331,8 @@ type itemRec struct {
 	LB        uint64 `json:"undecided_at,omitempty"`
 	When      string `json:"when,omitempty"`
 	Far       int    `json:"far,omitempty"`
+	Via       string `json:"via,omitempty"`
+	DelayNs   int64  `json:"delay_ns,omitempty"`
 }
 
 type history struct {
@@ -1328,7 +1360,7 @@ func (r *run) history() history {
 			e = 0
 		}
 		h.Items = append(h.Items, itemRec{it.idx, it.id, it.offUs, it.gated, it.schedCall.Load(), it.schedRet.Load(), it.accepted.Load(), int(it.starts.Load()),
-			it.startTick.Load(), it.endTick.Load(), it.doneTick.Load(), e, it.lb(), it.when, it.far})
+			it.startTick.Load(), it.endTick.Load(), it.doneTick.Load(), e, it.lb(), it.when, it.far, it.via, it.delayNs})
 	}
 	for p := range r.patterns {
 		h.Patterns = append(h.Patterns, p)
